@@ -195,7 +195,8 @@ fn gen_lines(nl: usize) -> Vec<Vec<u8>> {
                 // scalar key with symbolic value (which key: by position)
                 let k = [2usize, 6, 7, 12][i % 4];
                 l.extend_from_slice(KEYS[k].as_bytes());
-                l.push(b'=');
+                // blanks on either side of the '=' belong to neither key nor value
+                l.extend_from_slice([b"=" as &[u8], b"= \t", b" ="][sym::choose("sep", 3)]);
                 l.extend_from_slice(&sym::any_bytes("val", "set:a= :/.", 0, sym::bound(1, 2)));
             }
             2 => {
